@@ -642,6 +642,21 @@ def s_not(x):
 
 class SymIntBase:
     """Common base so that the loader's isinstance(x, int) accepts both kinds."""
+    def __round__(self, ndigits=None):
+        # an integer rounded to a non-negative number of decimals is itself
+        if ndigits is None or (isinstance(ndigits, int) and ndigits >= 0):
+            return self
+        raise Unsupported("round() of a symbolic integer to negative digits")
+
+    def __trunc__(self):
+        return self
+
+    def __floor__(self):
+        return self
+
+    def __ceil__(self):
+        return self
+
 
     __slots__ = ()
 
